@@ -124,6 +124,14 @@ PROPS = {
         rule="entry names of the real KeysFromRequest/FsName compared with the model's (SHA-1 computed in Coq) on requests over colliding vocabularies, and pairs of requests: every legal re-split of one request's key string (method|host, path|headers, value|value, name|value, opaqueOrigin), near copies differing in one field, equal pairs and random pairs; the monitor demands equal names only for the same resource; non-trivial = all; distinct = distinct case encodings",
         classify=lambda row: "key-unit",
     ),
+    "C18": dict(
+        family="cache", xcheck=40,
+        proof_files=["Proofs/C18Proofs.v"],
+        trusted_base=TB_COMMON + ["caching/verif_export.go hooks (VerifWaitIdle, VerifSetCreated)", "origins are scripted per host: every path on a host gets that host's answer", "net/url parsing and RedirectedURL resolution are modelled on unescaped paths (parse_url / redirected_url in coq/Model/Cache.v)"],
+        assumptions=ASSUME_COMMON + ["relative Location references (no leading slash) are a don't-care for WHICH response is final (the code resolves them against the client's path); termination and well-formedness are still required", "a redirected request for the client-facing host itself would go back through the network to rrrouter and is not generated"],
+        rule="all 64 redirect graphs over three origin URLs (each node final or redirecting to any node: chains, self-loops, cycles of length 2 and 3) x cache off/on x Location spelling (absolute always; path-absolute and relative for a quarter of the graphs in quick, all in thorough) x per-hop rules (none / for one host / for all hosts, with their own request and response header overrides and cache setting, else fallback to the parent rule); each history requests a start node cold, again warm, and sometimes a second start node; non-trivial = at least one redirect was followed; distinct = distinct case encodings",
+        classify=lambda row: "history",
+    ),
     "C20": dict(
         family="copy",
         proof_files=["Proofs/C20Proofs.v", "Proofs/RouteProofs.v", "Proofs/C01Proofs.v"],
